@@ -241,6 +241,9 @@ pub struct Runner<T: Smp> {
     pub check_alloc: bool,
     /// signal channel offset (single-channel twins of an n-channel instance)
     pub ch_off: usize,
+    /// smallest input/output_frames_max() seen so far: the max getters are lifetime bounds
+    pub min_in_max: usize,
+    pub min_out_max: usize,
     sent_k: u32,
 }
 
@@ -264,6 +267,8 @@ impl<T: Smp> Runner<T> {
             calls: 0,
             check_alloc: true,
             ch_off: 0,
+            min_in_max: usize::MAX,
+            min_out_max: usize::MAX,
             sent_k: 1,
         }
     }
@@ -323,6 +328,15 @@ impl<T: Smp> Runner<T> {
         }
         if g.out_next > g.out_max {
             self.find("C04", "out_next_gt_max", format!("output_frames_next()={} > output_frames_max()={}", g.out_next, g.out_max));
+        }
+        // buffers sized by *_frames_max() at ANY earlier time must stay sufficient
+        self.min_in_max = self.min_in_max.min(g.in_max);
+        self.min_out_max = self.min_out_max.min(g.out_max);
+        if g.in_next > self.min_in_max {
+            self.find("C04", "max_not_a_lifetime_bound", format!("input_frames_next()={} exceeds the value {} that input_frames_max() reported earlier in this history", g.in_next, self.min_in_max));
+        }
+        if g.out_next > self.min_out_max {
+            self.find("C04", "max_not_a_lifetime_bound", format!("output_frames_next()={} exceeds the value {} that output_frames_max() reported earlier in this history", g.out_next, self.min_out_max));
         }
         if g.nch != self.cfg.channels {
             self.find("C04", "nbr_channels", format!("nbr_channels()={} != {}", g.nch, self.cfg.channels));
@@ -449,6 +463,11 @@ impl<T: Smp> Runner<T> {
         let g = self.drv.getters();
         self.check_getters(&g);
         let nch = self.cfg.channels;
+        if self.nstep % 5 == 2 {
+            // buffers may be obtained from *_buffer_allocate at any point of the resampler's life
+            self.alloc_in = self.drv.in_alloc(true);
+            self.alloc_out = self.drv.out_alloc(true);
+        }
         let mut so = StepOut { res: Ok((0, 0)), out: vec![Vec::new(); nch], before: g, after: g, allocs: AllocReport::default(), fed: 0 };
         match op {
             Op::Proc { path, slack_in, slack_out, mask, empty_inactive } => {
